@@ -571,8 +571,9 @@ def check(prop, tier, seed, replay=None):
         "wall_s": round(time.time() - t0, 1),
         "violations": len(violations),
     }
-    with open(os.path.join(EVID, "%s.json" % prop), "w") as f:
-        json.dump(ev, f, indent=1, sort_keys=True)
+    if replay is None:
+        with open(os.path.join(EVID, "%s.json" % prop), "w") as f:
+            json.dump(ev, f, indent=1, sort_keys=True)
     for ln in known_lines:
         print(ln)
     log("%s tier=%s seed=%s: %d theorems (%d discharged), %d cases, %d model/impl disagreements, "
